@@ -177,6 +177,7 @@ func checkC01(w *Worker) {
 			}
 			visits := installMapOrder(x, "env:maporder")
 			var err error
+			var again func() error
 			func() {
 				defer uninstallMapOrder()
 				defer func() {
@@ -185,7 +186,7 @@ func checkC01(w *Worker) {
 						err = fmt.Errorf("PANIC: %v", r)
 					}
 				}()
-				err = resolveVia(api, db, depth)
+				err, again = resolveTwiceVia(api, db, depth)
 			}()
 			shared_ := 0
 			for _, r := range book {
@@ -234,7 +235,7 @@ func checkC01(w *Worker) {
 						err = fmt.Errorf("PANIC: %v", r)
 					}
 				}()
-				err = resolveVia(api, db, depth)
+				err = again()
 			}()
 			if err != nil {
 				x.Violate("C01|second-resolve-failed", fmt.Sprintf("book {%s}: resolving the already resolved book failed: %v", book, err), rep)
